@@ -1,7 +1,7 @@
 import Adsb.Gen.Fns
 import Adsb.Theorems.C06
 import Adsb.Theorems.C09
-/-! # C06 / C09 (part 2) — the altitude and identity functions *as translated from the source on this run*
+/-! # C06 / C09 / C07 / C10 (part 2) — the altitude, identity and `map`-closure functions *as translated from the source on this run*
 
 `Gen.decodeId13Src`, `Gen.modeAToCSrc`, `Gen.ac13Src`, `Gen.ac12Src`, `Gen.identitySrc` are produced by `tools/rust2lean.py` from the
 text of `mode_ac.rs` and of the three custom readers in `lib.rs` every time a check runs. The theorems below evaluate those
@@ -94,6 +94,33 @@ theorem src_identity_is_squawk (c : Nat) (h : c < 8192) : Gen.identitySrc c = .o
 theorem src_carriers_agree (c : Nat) (h : c < 8192) :
     Gen.decodeId13Src c = Gen.identitySrc c := by
   rw [src_decodeId13 c h, src_identity c h, C09.decodeId13_spec c h, C09.identityCode_spec c h]
+
+/-! ## the integer `map` closures of the deku attributes, as translated (C07, C09, C10) -/
+
+theorem src_maps_all :
+    allRange (fun r => isNum (Gen.airspeedMapSrc r) (if r = 0 then 0 else r - 1)) 0 1024 11 = true
+    ∧ allRange (fun n => isNum (Gen.selAltMapSrc n) (if n = 0 then 0 else (n - 1) * 32)) 0 2048 12 = true
+    ∧ allRange (fun r => isNum (Gen.gnssDiffMapSrc r) (if r = 0 then 0 else (r - 1) * 25)) 0 128 8 = true
+    ∧ allRange (fun c => isNum (Gen.statusSquawkMapSrc c) (Spec.squawk c)) 0 8192 14 = true
+    ∧ allRange (fun c => isNum (Gen.df21IdMapSrc c) (Spec.squawk c)) 0 8192 14 = true := by
+  refine ⟨?_, ?_, ?_, ?_, ?_⟩ <;> decide +kernel
+
+/-- **C07 on the source text**: airspeed = raw − 1 kt (0 = no information) for every 10-bit value, no panic -/
+theorem src_airspeed (r : Nat) (h : r < 1024) : Gen.airspeedMapSrc r = .ok (.num (if r = 0 then 0 else r - 1)) :=
+  isNum_eq (allBelow_sound _ 1024 11 src_maps_all.1 r h)
+
+/-- **C10 on the source text**: selected altitude = (N − 1)·32 ft (0 = no information) for every 11-bit value, no panic -/
+theorem src_selected_altitude (n : Nat) (h : n < 2048) : Gen.selAltMapSrc n = .ok (.num (if n = 0 then 0 else (n - 1) * 32)) :=
+  isNum_eq (allBelow_sound _ 2048 12 src_maps_all.2.1 n h)
+
+/-- **C07 on the source text**: GNSS-baro difference = (raw − 1)·25 ft (0 = no information) for every 7-bit value, no panic -/
+theorem src_gnss_difference (r : Nat) (h : r < 128) : Gen.gnssDiffMapSrc r = .ok (.num (if r = 0 then 0 else (r - 1) * 25)) :=
+  isNum_eq (allBelow_sound _ 128 8 src_maps_all.2.2.1 r h)
+
+/-- **C09 on the source text**: the type-28 and DF21 squawk closures yield the standard's four octal digits for every 13-bit field -/
+theorem src_squawk_maps (c : Nat) (h : c < 8192) :
+    Gen.statusSquawkMapSrc c = .ok (.num (Spec.squawk c)) ∧ Gen.df21IdMapSrc c = .ok (.num (Spec.squawk c)) :=
+  ⟨isNum_eq (allBelow_sound _ 8192 14 src_maps_all.2.2.2.1 c h), isNum_eq (allBelow_sound _ 8192 14 src_maps_all.2.2.2.2 c h)⟩
 
 /-- a concrete instance: code 0x0c38 is 18 800 ft through the source's own statements (Q = 1 branch) -/
 example : Gen.ac13Src 0x0c38 = .ok (.num 18800) := by rfl
